@@ -35,7 +35,7 @@ class Ctx:
         self.seed = seed
         self.level = level
         self.t0 = time.time()
-        self.work = os.path.join(ROOT, '.work', pid)
+        self.work = os.path.join(ROOT, '.work', '%s.%d' % (pid, os.getpid()))
         shutil.rmtree(self.work, ignore_errors=True)
         os.makedirs(self.work, exist_ok=True)
         self.replay_dir = os.path.join(ROOT, 'replays', pid)
